@@ -541,6 +541,10 @@ def run(repo: Repo, rep, tier: str):
     rep.guarded(check_partial_before_execution, repo, rep)
     rep.guarded(check_partial_candle_so_far, repo, rep, tier)
     rep.guarded(check_symbols_minute_major, repo, rep)
+    # the 1m candles a later hook of the same chunk reads: the fast matcher must leave every minute it has passed in the store as the
+    # WHOLE input candle (shared runs with C12-R4d: both matchers on a two-minute span with a hook-submitted market order)
+    from props.c12 import check_hook_market_orders
+    rep.guarded(check_hook_market_orders, repo, rep, tier, "C07-R14")
     rep.undecided_item("numerical equality of every stored candle at every observation time of a whole run (the per-site formulas and window arithmetic are decided)")
 
 
